@@ -63,3 +63,10 @@ PROPS["C13"] = {"pkgs": [("./internal/client", "TestVerif_C13")],
                                  "(FindAddrByChannelNumber + HandleInbound); C09 covers client.go's own dispatch",
                                  "goroutine-level interleavings of maybeBind's background goroutine are abstracted to 'the reaction arrives at a later event'"],
                 "assumptions": ["at most two 438 answers in a row to one ChannelBind (the third makes the client give up; not modelled)"]}
+
+PROPS["C14"] = {"pkgs": [(".", "TestVerif_C14")],
+                "trusted_base": ["the theorem is about the abstract timed system of Model/KeepAlive.v; that the goroutine-based drivers of the client "
+                                 "obey its cycle bound (next refresh processed within P + 2H of the previous one) is CHECKED on the timelines of a real "
+                                 "client against a real server over virtual hours, not proved",
+                                 "loss schedules drop up to five transmissions of a request and up to two responses, never all"],
+                "assumptions": ["interval + 2 x 23.4 s < timeout for each (driver, server timer) pair: the meaning given to 'compatible configuration'"]}
